@@ -55,7 +55,7 @@ func (r *Run) ExportAndExit() {
 		fatal("export: %v", err)
 	}
 	os.Stdout.Write(append(append([]byte("VERIF-WORKER-RESULT "), b...), '\n'))
-	os.Exit(0)
+	Exit(0)
 }
 
 // Import merges a worker's exported counters.
